@@ -661,3 +661,87 @@ Qed.
 End Observables.
 End FockPerm.
 End Obs.
+
+(** * The same for the pi of the relabelling / re-ordering / mode-switch theorem *)
+Require Import Permutation.
+From PV Require Import Index IndexProofs.
+
+(** relabelling sites, re-ordering the addSite calls or switching the ordering mode changes the Fock-space
+    matrix of every polynomial written in the indices of the first table (Hamiltonian, c_i, c^+_i, ...) into
+    P H P^T, with P the signed permutation matrix of pi = index_perm t1 t2 f;  P is orthogonal *)
+Theorem hamiltonian_matrix_relabel :
+  forall (K : Type) (NO : numops K),
+  ring_theory (n0 K NO) (n1 K NO) (nadd K NO) (nmul K NO) (nsub K NO) (nopp K NO) (@eq K) ->
+  forall (fx1 m1 fx2 m2 : bool) (calls1 calls2 : list site) (f g : label -> label) (t1 t2 : table),
+  NoDup (labels calls1) ->
+  (forall l, In l (labels calls1) -> g (f l) = l) ->
+  Permutation (map (rename_site f) calls1) calls2 ->
+  harmless fx1 m1 (site_map calls1) -> harmless fx2 m2 (site_map calls2) ->
+  prepare_lattice fx1 m1 calls1 = Done t1 ->
+  prepare_lattice fx2 m2 calls2 = Done t2 ->
+  let N := IndexSize t1 in
+  let pi := index_perm t1 t2 f in
+  let P := fock_sperm N pi in
+  let dim := Nat.pow 2 N in
+  forall p : list (monomial * K),
+    poly_matrix K NO N (poly_ren K pi p) = pconj K NO P (poly_matrix K NO N p) /\
+    pconj K NO P (poly_matrix K NO N p) =
+      mmul K NO dim (mmul K NO dim (Pmat K NO P) (poly_matrix K NO N p)) (transpose K NO dim (Pmat K NO P)) /\
+    mmul K NO dim (transpose K NO dim (Pmat K NO P)) (Pmat K NO P) = identity_matrix K NO dim.
+Proof.
+  intros K NO Rth fx1 m1 fx2 m2 calls1 calls2 f g t1 t2 Hnd Hgf Hperm Hh1 Hh2 Hp1 Hp2 N pi P dim p.
+  pose proof (proj1 (index_perm_perm_on fx1 m1 fx2 m2 calls1 calls2 f g t1 t2 Hnd Hgf Hperm Hh1 Hh2 Hp1 Hp2)) as Hpo.
+  fold N pi in Hpo.
+  pose proof (fock_sperm_ok N pi) as Hok.
+  split; [apply (poly_matrix_permuted K NO Rth N pi Hpo)|]. split.
+  - apply (pconj_is_mmul K NO Rth P Hok). apply wfm_poly_matrix.
+  - apply (Pmat_orthogonal K NO Rth P Hok).
+Qed.
+
+(** PARTIAL (what is missing is said in PVprops.Properties_C18): every eigen-system (E, U) of H yields the
+    eigen-system (E, P U) of the relabelled Hamiltonian, and all observables of EDSpec built from (E, P U) and
+    the field operators with the NEW indices pi(i) equal those built from (E, U) and the OLD indices i. *)
+Theorem observables_relabel_partial :
+  forall (K : Type) (NO : numops K),
+  ring_theory (n0 K NO) (n1 K NO) (nadd K NO) (nmul K NO) (nsub K NO) (nopp K NO) (@eq K) ->
+  (forall x, nconj K NO (nopp K NO x) = nopp K NO (nconj K NO x)) ->
+  forall (fx1 m1 fx2 m2 : bool) (calls1 calls2 : list site) (f g : label -> label) (t1 t2 : table),
+  NoDup (labels calls1) ->
+  (forall l, In l (labels calls1) -> g (f l) = l) ->
+  Permutation (map (rename_site f) calls1) calls2 ->
+  harmless fx1 m1 (site_map calls1) -> harmless fx2 m2 (site_map calls2) ->
+  prepare_lattice fx1 m1 calls1 = Done t1 ->
+  prepare_lattice fx2 m2 calls2 = Done t2 ->
+  let N := IndexSize t1 in
+  let pi := index_perm t1 t2 f in
+  let P := fock_sperm N pi in
+  let dim := Nat.pow 2 N in
+  forall (H : list (monomial * K)) (U : EDSpec.mat K) (E w : EDSpec.vec K),
+  wfm K dim U ->
+  let U' := prow K NO P U in
+  let C u i := rotate K NO dim u (op_matrix K NO N (cann i)) in
+  let CX u i := rotate K NO dim u (op_matrix K NO N (cdag i)) in
+  (eigen_system K NO dim (poly_matrix K NO N H) U E ->
+   eigen_system K NO dim (poly_matrix K NO N (poly_ren K pi H)) U' E) /\
+  residual_unitary K NO dim U' = residual_unitary K NO dim U /\
+  (forall i j z, gf K NO E w (C U' (pi i)) (CX U' (pi j)) z = gf K NO E w (C U i) (CX U j) z) /\
+  (forall i j tau, gf_tau K NO E w (C U' (pi i)) (CX U' (pi j)) tau = gf_tau K NO E w (C U i) (CX U j) tau) /\
+  (forall i j, trace_rho K NO w (quad K NO N U' (pi i) (pi j)) = trace_rho K NO w (quad K NO N U i j)) /\
+  (forall beta tol a b c d z z0,
+     susc K NO beta tol E w (quad K NO N U' (pi a) (pi b)) (quad K NO N U' (pi c) (pi d)) z z0 =
+     susc K NO beta tol E w (quad K NO N U a b) (quad K NO N U c d) z z0) /\
+  (forall beta tol i j k l z1 z2 z3,
+     chi K NO beta tol E w (C U' (pi i)) (C U' (pi j)) (CX U' (pi k)) (CX U' (pi l)) z1 z2 z3 =
+     chi K NO beta tol E w (C U i) (C U j) (CX U k) (CX U l) z1 z2 z3).
+Proof.
+  intros K NO Rth Hconj fx1 m1 fx2 m2 calls1 calls2 f g t1 t2 Hnd Hgf Hperm Hh1 Hh2 Hp1 Hp2 N pi P dim H U E w HU U' C CX.
+  pose proof (proj1 (index_perm_perm_on fx1 m1 fx2 m2 calls1 calls2 f g t1 t2 Hnd Hgf Hperm Hh1 Hh2 Hp1 Hp2)) as Hpo.
+  fold N pi in Hpo.
+  split; [apply (eigen_system_poly_permuted K NO Rth N pi Hpo U HU)|].
+  split; [apply (residual_unitary_permuted K NO Rth P (fock_sperm_ok N pi) Hconj U HU)|].
+  split; [intros i j z; apply (gf_permuted K NO Rth N pi Hpo Hconj U HU)|].
+  split; [intros i j tau; apply (gf_tau_permuted K NO Rth N pi Hpo Hconj U HU)|].
+  split; [intros i j; apply (density_matrix_permuted K NO Rth N pi Hpo Hconj U HU)|].
+  split; [intros beta tol a b c d z z0; apply (susc_permuted K NO Rth N pi Hpo Hconj U HU)|].
+  intros beta tol i j k l z1 z2 z3; apply (chi_permuted K NO Rth N pi Hpo Hconj U HU).
+Qed.
